@@ -567,7 +567,11 @@ def main(argv=None):
                 if cname == 'no-unexpected-exception' and t.kind == 'sym' and not confirmed and isinstance(rp, dict) and rp.get('status') == 'ran':
                     # the exception was raised under symbolic execution only: the native run of the real code on an input of the SAME path raised nothing.
                     # An exception is a deterministic function of the input, so this one belongs to the engine (facade coverage), not to the code.
-                    engine_limited = 'symbolic run raised, native run on an input of the same path did not raise it: ' + detail.split('\n')[0][:200]
+                    if ('File "%s/' % REPO) in detail:
+                        engine_limited = 'symbolic run raised, native run on an input of the same path did not raise it: ' + detail.split('\n')[0][:200]
+                    else:
+                        # no frame of the repository between the harness and the raise: the CHECKER's own code failed under symbolic execution
+                        errors.append('%s: harness / engine error under symbolic execution (no repository frame in the traceback): %s' % (t.name, detail[:600]))
                     continue
                 kf = match_known(known, prop, cname, t.name, detail)
                 fn = re.sub(r'[^A-Za-z0-9_.-]+', '_', '%s__%s' % (t.name, cname))[:150] + '.json'
